@@ -1012,6 +1012,98 @@ def script_bigfile(g, n, out):
     return steps
 
 
+# ------------------------------------------------------------------ clones
+def script_clone(g, n, prop, out):
+    """An IR obtained by copy.deepcopy / pickle of a built IR (lookups done
+    before the copy or not) is an IR like any other: every lookup structure
+    of the copy must follow the copy's own tree, before and after edits to
+    it, and the original must not notice."""
+    import copy
+    import pickle
+
+    from .. import ircases, irgen, oracle
+
+    spec = ircases.large_cases_for(n)[1]
+    steps = 0
+    for pre in ("cold", "warm"):
+        for how in ("deepcopy", "pickle"):
+            where = "clone n=%d %s %s" % (n, pre, how)
+            try:
+                x, _ = irgen.build_ir(spec, "topdown")
+                if pre == "warm":
+                    for sig, d in oracle.check_ir(g, x):
+                        out.append((sig.replace("/clone:", "/built-large:"),
+                                    "%s: %s" % (where, d)))
+                before = irgen.snapshot(x)
+                try:
+                    y = (copy.deepcopy(x) if how == "deepcopy"
+                         else pickle.loads(pickle.dumps(x)))
+                except Exception:  # noqa  (cloning not supported: no claim)
+                    continue
+                steps += 1
+                for sig, d in oracle.check_ir(g, y, others=[x]):
+                    out.append((sig, "%s, right after the copy: %s"
+                                % (where, d)))
+                if not (x.deep_eq(y) and y.deep_eq(x)):
+                    out.append(("C18/clone:copy-not-deep_eq", where))
+                if irgen.diff(irgen.snapshot(y), before):
+                    out.append(("C04/clone:copy-differs-from-original",
+                                "%s: %s" % (where, irgen.diff(
+                                    irgen.snapshot(y), before))))
+                # ---- edit the copy through the public API
+                t = oracle.tree(y)
+                for b in t["intervals"]:
+                    if b.address is not None:
+                        b.address += 0x100
+                big = max(t["intervals"], key=lambda b: len(b.blocks))
+                ks_ = sorted(big.blocks, key=lambda k: k.uuid.int)
+                for k in ks_[::2]:
+                    k.offset += 1
+                big.blocks.discard(ks_[1])
+                big.blocks.add(ks_[1])
+                newk = g.CodeBlock(offset=3, size=2, uuid=U(991000))
+                big.blocks.add(newk)
+                big.symbolic_expressions[5] = g.SymAddrConst(
+                    1, t["symbols"][0])
+                big.contents[0:1] = b"\xee"
+                m = t["modules"][0]
+                ys = sorted(m.symbols, key=lambda q: q.uuid.int)
+                ys[0].name = ys[1].name
+                ys[2].referent = newk
+                ys[3].module = None
+                s0 = t["sections"][-1]
+                s0.module = None
+                s0.module = m
+                e = sorted(y.cfg, key=lambda e_: (e_.source.uuid.int,
+                                                  e_.target.uuid.int,
+                                                  str(e_.label)))[0]
+                y.cfg.discard(e)
+                y.cfg.add(g.Edge(newk, e.target))
+                steps += 1
+                for sig, d in oracle.check_ir(g, y, others=[x]):
+                    out.append((sig, "%s, after edits to the copy: %s"
+                                % (where, d)))
+                for sig, d in oracle.check_ir(g, x, others=[y]):
+                    out.append((sig.replace("/clone:", "/clone:original-"),
+                                "%s, original after edits to the copy: %s"
+                                % (where, d)))
+                d = irgen.diff(irgen.snapshot(x), before)
+                if d:
+                    out.append(("C04/clone:edit-of-copy-changes-original",
+                                "%s: %s" % (where, d)))
+                    if "contents" in d:
+                        out.append(("C19/clone:copy-shares-stored-bytes",
+                                    "%s: %s" % (where, d)))
+                if x.deep_eq(y) or y.deep_eq(x):
+                    out.append(("C18/clone:true-for-different", where))
+            except Exception as e:  # noqa
+                import traceback
+
+                out.append(("%s/clone:raises:%s" % (prop, type(e).__name__),
+                            "%s: %s" % (where, traceback.format_exc()[-400:])))
+    return steps
+
+
 # ------------------------------------------------------------------ driver
 def plan(prop, tier):
     """(script name, [n ...]) for the property"""
@@ -1033,7 +1125,11 @@ def plan(prop, tier):
         "C19": [("bytes", [16])],
         "C17": [("bigfile", [1, 2])],
     }
-    return P.get(prop, [])
+    out = P.get(prop, [])
+    if prop in ("C03", "C04", "C05", "C06", "C10", "C11", "C12", "C13", "C18",
+                "C19"):
+        out = out + [("clone", [9, 17])]
+    return out
 
 
 def run_script(name, n, prop):
@@ -1060,6 +1156,12 @@ def run_script(name, n, prop):
         steps = script_bytes(g, n, out)
     elif name == "bigfile":
         steps = script_bigfile(g, n, out)
+    elif name == "clone":
+        steps = script_clone(g, n, prop, out)
+        if prop == "C12":
+            # schedule independence: C05's findings under C12's name
+            out += [(s_.replace("C05/", "C12/"), d) for s_, d in out
+                    if s_.startswith("C05/")]
     else:
         raise ValueError(name)
     return steps, out
